@@ -33,6 +33,14 @@ func HC10_no_shared_writes() {
 	c10break(dm, how)
 	dm2 := c.Build("")
 	c10break(dm2, how)
+	if rt.RaceMode() {
+		// native confirmation run: concurrent identical requests are the first use of the registries in the process
+		RaceRun(func(int) *model.DecisionMaker {
+			d := c.Build("")
+			c10break(d, how)
+			return d
+		}, 1, nil)
+	}
 	rt.Own(dm)
 	rt.Own(dm2)
 	rt.Epoch()
